@@ -3,6 +3,7 @@ import os
 import re
 
 import batflow
+import comprun
 import corpus
 import progflow
 from batflow import neutral
@@ -29,6 +30,8 @@ def run(ctx):
     shapes = ctx.tlc_family("FamC16", constants={"Tier": '"quick"'})
     cases += [c for c in shapes if "/builtin/" not in c["id"]]
     cases += progflow.generate(ctx, "all", 60 if quick else 1500, extra=("-small",))
+    # every typed position x every offered expression (spec/FamC06.tla RunCases): the well-typed ones also run under the cmd.exe model
+    cases += comprun.accepted(ctx, False, 4 if quick else 1) + comprun.accepted(ctx, True, 4 if quick else 1)
     # the repository's own test programs: their stated expectations calibrate the cmd.exe model
     repo = corpus.cases(ctx, ("C01", "C02", "C03"))
     expects = {c["id"]: c["testExpects"] for c in repo if c.get("testExpects") is not None}
